@@ -26,7 +26,9 @@ soup = importlib.util.module_from_spec(_spec)
 sys.modules["vh_soup_for_mut"] = soup
 _spec.loader.exec_module(soup)
 
-SK = skel.Skeleton(LANG, dict(skel.programs(LANG, "quick"))[LABEL], LABEL)
+_PROGS = dict(skel.programs(LANG, "quick"))
+_PROGS.update(skel.extra_programs(LANG))
+SK = skel.Skeleton(LANG, _PROGS[LABEL], LABEL)
 LANGUAGE = capture.language(LANG)
 BASE = list(SK.code)
 NT = len(BASE)
@@ -37,6 +39,8 @@ def mutate(p, k):
     """Token list after the edit; positions of untouched tokens stay as in the canonical text (an inserted copy sits one column-block to the right on the same line,
     which keeps (line, column) order = list order because the canonical text leaves no room conflicts: later tokens on that line are shifted by the same amount)."""
     toks = [Token(Location(t.location.line, t.location.column), t.token_type, t.value) for t in BASE]
+    if OP == "none":
+        return toks
     if OP == "prefix":
         return toks[:p]
     if OP == "suffix":
@@ -76,7 +80,7 @@ def mutate(p, k):
 
 
 def _maxp():
-    return {"prefix": NT, "suffix": NT, "delete": NT - 1, "dup": NT - 1, "swap": NT - 2, "replace": NT - 1}[OP]
+    return {"none": 0, "prefix": NT, "suffix": NT, "delete": NT - 1, "dup": NT - 1, "swap": NT - 2, "replace": NT - 1}[OP]
 
 
 def h_mut(p: int, k: int) -> bool:
